@@ -86,6 +86,34 @@ fn all_forms<P: Mk>(kind: Kind, long_lived: &P, a: &str, b: &str) -> Vec<(&'stat
             call!("fresh default()", fresh_def);
             call!("long-lived per thread", long_lived);
             call!("shared by all threads", shared);
+            // the same text as a view into a larger buffer: the pointer starts 1..15 and 8 bytes after an allocation boundary
+            {
+                let (mut b1, mut b2) = (String::new(), String::new());
+                let k = 1 + (a.len() * 7 + a.bytes().next().unwrap_or(0) as usize) % 15;
+                let (v1, v2) = (view_at(&mut b1, a, k), view_at(&mut b2, a, 8));
+                if kind == Kind::Prepare {
+                    v.push(("fresh new()/&str at an odd pointer offset", o(fresh_new.prepare(v1))));
+                    v.push(("static/&str 8 bytes into a buffer", o(<P as PrecisFastInvocation>::prepare(v2))));
+                } else {
+                    v.push(("fresh new()/&str at an odd pointer offset", o(fresh_new.enforce(v1))));
+                    v.push(("static/&str 8 bytes into a buffer", o(<P as PrecisFastInvocation>::enforce(v2))));
+                }
+            }
+            // the same call made from inside the rule function of an enclosing stabilize (an application-defined profile layered on
+            // top of the library's own fixed-point helper)
+            {
+                let slot: std::cell::RefCell<Option<Result<String, RErr>>> = std::cell::RefCell::new(None);
+                let _ = precis_core::profile::stabilize("Some Label", |s: &str| -> Result<Cow<'_, str>, precis_core::Error> {
+                    if slot.borrow().is_none() {
+                        let r = if kind == Kind::Prepare { o(fresh_new.prepare(a)) } else { o(<P as PrecisFastInvocation>::enforce(a)) };
+                        *slot.borrow_mut() = Some(r);
+                    }
+                    Ok(Cow::Owned(s.to_lowercase()))
+                });
+                if let Some(r) = slot.into_inner() {
+                    v.push(("inside the rule function of an enclosing stabilize", r));
+                }
+            }
             if kind == Kind::Prepare {
                 v.push(("static/&str", o(<P as PrecisFastInvocation>::prepare(a))));
                 v.push(("static/String", o(<P as PrecisFastInvocation>::prepare(a.to_string()))));
@@ -112,6 +140,25 @@ fn all_forms<P: Mk>(kind: Kind, long_lived: &P, a: &str, b: &str) -> Vec<(&'stat
             call!("fresh default()", fresh_def);
             call!("long-lived per thread", long_lived);
             call!("shared by all threads", shared);
+            {
+                let (mut b1, mut b2) = (String::new(), String::new());
+                let k = 1 + (a.len() * 7 + b.len()) % 15;
+                let (v1, v2) = (view_at(&mut b1, a, k), view_at(&mut b2, b, (k + 5) % 16));
+                v.push(("fresh new()/&str,&str at odd pointer offsets", cmp(ob(fresh_new.compare(v1, v2)))));
+            }
+            {
+                let slot: std::cell::RefCell<Option<Result<String, RErr>>> = std::cell::RefCell::new(None);
+                let _ = precis_core::profile::stabilize("Some Label", |s: &str| -> Result<Cow<'_, str>, precis_core::Error> {
+                    if slot.borrow().is_none() {
+                        let r = cmp(ob(fresh_new.compare(a, b)));
+                        *slot.borrow_mut() = Some(r);
+                    }
+                    Ok(Cow::Owned(s.to_lowercase()))
+                });
+                if let Some(r) = slot.into_inner() {
+                    v.push(("inside the rule function of an enclosing stabilize", r));
+                }
+            }
             v.push(("static/&str,&str", cmp(ob(<P as PrecisFastInvocation>::compare(a, b)))));
             v.push(("static/String,String", cmp(ob(<P as PrecisFastInvocation>::compare(sa.clone(), sb.clone())))));
             v.push(("static/&String,&str", cmp(ob(<P as PrecisFastInvocation>::compare(&sa, b)))));
@@ -233,8 +280,15 @@ fn history_strategy() -> BoxedStrategy<Vec<Step>> {
             // trailing character that makes an LTR label invalid: calls on them right after the original expose state
             // that is keyed on too few bits of a code point
             let mut full: Vec<String> = Vec::new();
-            for (_, s) in &pool {
+            for (i, (_, s)) in pool.iter().enumerate() {
                 full.push(s.clone());
+                // every fourth history also has a long version of one of its strings (4 KiB+ and 70 KiB+: paths that only exist for long labels)
+                if i == 0 && !s.is_empty() && steps.len() % 4 == 1 {
+                    full.push(s.repeat(4200 / s.len() + 1));
+                    if steps.len() % 8 == 1 {
+                        full.push(s.repeat(70_000 / s.len() + 1));
+                    }
+                }
                 for k in [1u32, 2] {
                     let up = crate::gens::plane_alias(s, k, true);
                     if up != *s {
